@@ -5,7 +5,55 @@ use zerv::cli::check::{run_check_command, CheckArgs};
 use zerv::utils::sanitize::Sanitizer;
 use zerv::vcs::git_utils::GitUtils;
 use zerv::version::semver::{BuildMetadata, PreReleaseIdentifier};
-use zerv::version::{SemVer, VersionObject};
+use zerv::version::pep440::utils::LocalSegment;
+use zerv::version::zerv::PreReleaseLabel;
+use zerv::version::{SemVer, VersionObject, PEP440};
+
+fn optn(o: &Option<u32>) -> String {
+    match o {
+        Some(n) => n.to_string(),
+        None => "~".into(),
+    }
+}
+
+pub fn pep_fields(v: &PEP440) -> String {
+    let rel = if v.release.is_empty() {
+        "-".to_string()
+    } else {
+        v.release.iter().map(|n| n.to_string()).collect::<Vec<_>>().join(",")
+    };
+    let pl = match v.pre_label {
+        None => "~",
+        Some(PreReleaseLabel::Alpha) => "a",
+        Some(PreReleaseLabel::Beta) => "b",
+        Some(PreReleaseLabel::Rc) => "rc",
+    };
+    let local = match &v.local {
+        None => "~".to_string(),
+        Some(l) if l.is_empty() => "-".to_string(),
+        Some(l) => l
+            .iter()
+            .map(|g| match g {
+                LocalSegment::Str(s) => format!("s:{}", hex(s)),
+                LocalSegment::UInt(n) => format!("u:{n}"),
+            })
+            .collect::<Vec<_>>()
+            .join(","),
+    };
+    format!(
+        "{} {} {} {} {} {} {} {} {} {}",
+        hex(&v.to_string()),
+        v.epoch,
+        rel,
+        pl,
+        optn(&v.pre_number),
+        if v.post_label.is_some() { 1 } else { 0 },
+        optn(&v.post_number),
+        if v.dev_label.is_some() { 1 } else { 0 },
+        optn(&v.dev_number),
+        local
+    )
+}
 
 fn ord(o: Ordering) -> &'static str {
     match o {
@@ -93,6 +141,23 @@ pub fn dispatch(f: &[&str]) -> Result<String, String> {
         "SVC" => {
             let a = SemVer::from_str(&unhex(f[1])?);
             let b = SemVer::from_str(&unhex(f[2])?);
+            match (a, b) {
+                (Ok(a), Ok(b)) => Ok(format!("{} {}", ord(a.cmp(&b)), if a == b { 1 } else { 0 })),
+                _ => Ok("ERR".into()),
+            }
+        }
+        // PEP <s> : PEP440::from_str + Display + fields
+        "PEP" => {
+            let s = unhex(f[1])?;
+            match PEP440::from_str(&s) {
+                Ok(v) => Ok(format!("OK {}", pep_fields(&v))),
+                Err(_) => Ok("ERR".into()),
+            }
+        }
+        // PEC <s1> <s2>
+        "PEC" => {
+            let a = PEP440::from_str(&unhex(f[1])?);
+            let b = PEP440::from_str(&unhex(f[2])?);
             match (a, b) {
                 (Ok(a), Ok(b)) => Ok(format!("{} {}", ord(a.cmp(&b)), if a == b { 1 } else { 0 })),
                 _ => Ok("ERR".into()),
